@@ -34,6 +34,7 @@ DECIDING = {
     "generations": "first generations (exactly one event on the requester)",
     "generations_in_child_context": "generation in a child (parent must stay silent)",
     "race_cases_with_overlap": "concurrent lookups of one factory (exactly one generation event)",
+    "nested_generations_whose_outer_factory_failed_first": "a factory generating its dependency through another factory and then failing (the dependency is announced then, the failure is silent, the retry announces the dependant only)",
 }
 ASSUMPTIONS = [
     "for a generated resource both the factory's declared types and the types actually registered in that context are accepted as 'the registered types'",
@@ -46,11 +47,147 @@ def plan(tier: str) -> dict[str, Any]:
 
 
 def gen_case(idx: int, seed: int, tier: str) -> Any:
+    if idx % 20 == 13:
+        from vkit.harness import case_rng
+
+        rng = case_rng(PROPERTY, seed, idx)
+        return {"kind": "nested", "backend": rng.choice(["asyncio", "trio"]), "outer_async": rng.random() < 0.5, "inner_async": rng.random() < 0.5,
+                "outer_fails_first": rng.random() < 0.7, "in_child": rng.random() < 0.5, "multi_type": rng.random() < 0.5}
     return {"seed": f"{seed}:{idx}", "want_sample": idx % 97 == 0, "over": {"p_invalid": 0.1, "p_bad_name": 0.05},
             "weights": {"construct": 10, "enter": 5, "leave": 4, "add_resource": 28, "add_factory": 18, "lookup": 34, "race": 8}}
 
 
+async def nested_scenario(case: dict[str, Any], out: dict[str, Any]) -> None:
+    """a factory that looks another factory-made resource of the same context up while it runs (a client built on a lazily made
+    connection) - and fails afterwards on its first run: the dependency was generated and is announced, once, when it is generated;
+    the failed generation announces nothing; the second, successful run announces the dependant once and the dependency not again"""
+    import anyio
+    from anyio.lowlevel import checkpoint
+    from asphalt.core import Context, current_context
+
+    Inner = type("Connection", (), {})  # noqa: N806
+    Outer = type("Client", (), {})  # noqa: N806
+    Extra = type("ClientInterface", (), {})  # noqa: N806
+    runs = {"outer": 0}
+
+    class OuterFailed(Exception):
+        pass
+
+    if case["inner_async"] and case["outer_async"]:
+        async def inner() -> Any:
+            await checkpoint()
+            return Inner()
+    else:
+        def inner() -> Any:  # type: ignore[misc]
+            return Inner()
+
+    if case["outer_async"]:
+        async def outer() -> Any:
+            runs["outer"] += 1
+            dep = await current_context().get_resource(Inner)
+            if case["outer_fails_first"] and runs["outer"] == 1:
+                raise OuterFailed("the client could not be built")
+            obj = Outer()
+            obj.dep = dep
+            return obj
+    else:
+        def outer() -> Any:  # type: ignore[misc]
+            runs["outer"] += 1
+            dep = current_context().get_resource_nowait(Inner)
+            if case["outer_fails_first"] and runs["outer"] == 1:
+                raise OuterFailed("the client could not be built")
+            obj = Outer()
+            obj.dep = dep
+            return obj
+
+    heard: list[Any] = out["heard"]
+
+    async def lookup(ctx: Any) -> Any:
+        return await ctx.get_resource(Outer) if case["outer_async"] else ctx.get_resource_nowait(Outer)
+
+    async with Context() as root:
+        root.add_resource_factory(inner, types=[Inner])
+        root.add_resource_factory(outer, types=[Outer, Extra] if case["multi_type"] else [Outer])
+        async with anyio.create_task_group() as tg:
+            async def body(ctx: Any) -> None:
+                ready = anyio.Event()
+
+                async def listener() -> None:
+                    async with ctx.resource_added.stream_events(max_queue_size=100) as stream:
+                        ready.set()
+                        async for ev in stream:
+                            heard.append((len(out["marks"]), tuple(ev.resource_types), ev.resource_name, ev.is_factory))
+
+                tg.start_soon(listener)
+                await ready.wait()
+                if case["outer_fails_first"]:
+                    try:
+                        await lookup(ctx)
+                        out["first"] = "returned"
+                    except OuterFailed:
+                        out["first"] = "OuterFailed"
+                    for _ in range(3):
+                        await checkpoint()
+                    out["marks"].append("after-failed-run")
+                got = await lookup(ctx)
+                for _ in range(3):
+                    await checkpoint()
+                out["marks"].append("after-successful-run")
+                out["dep_same"] = got.dep is ctx.get_resource_nowait(Inner)
+                await lookup(ctx)  # (a lookup of what exists announces nothing)
+                for _ in range(3):
+                    await checkpoint()
+                tg.cancel_scope.cancel()
+
+            if case["in_child"]:
+                async with Context() as child:
+                    await body(child)
+            else:
+                await body(root)
+    out["Inner"], out["Outer"] = Inner, Outer
+
+
+def run_nested(case: dict[str, Any]) -> dict[str, Any]:
+    from vkit.trace import describe_exc
+    from vkit.vtime import VirtualDeadlock, run_virtual
+
+    out: dict[str, Any] = {"heard": [], "marks": []}
+    V: list[dict[str, Any]] = []
+
+    def bad(key: str, msg: str) -> None:
+        V.append({"key": key, "msg": "a factory that generates its dependency through another factory of the same context: " + msg,
+                  "witness": {"case": case, "heard": [(m, [t.__name__ for t in ts], n, f) for m, ts, n, f in out["heard"]], "first": out.get("first")}})
+
+    try:
+        run_virtual(case["backend"], nested_scenario, case, out)
+    except VirtualDeadlock as e:
+        bad("history-deadlock", f"the scenario never finished: {e}")
+    except Exception as e:
+        bad("announce-unexpected", f"the scenario raised {describe_exc(e)}")
+    if not V:
+        Inner, Outer = out["Inner"], out["Outer"]  # noqa: N806
+        inner_events = [h for h in out["heard"] if Inner in h[1]]
+        outer_events = [h for h in out["heard"] if Outer in h[1]]
+        if case["outer_fails_first"] and out.get("first") != "OuterFailed":
+            bad("announce-unexpected", f"the first lookup, whose factory fails, {out.get('first')}")
+        if len(inner_events) != 1 or inner_events[0][0] != 0:
+            bad("announce-missing" if not inner_events or inner_events[0][0] != 0 else "announce-unexpected",
+                f"the dependency was generated during the first run of the dependant's factory; its listener heard {len(inner_events)} event(s) for it, "
+                f"the first one {'never' if not inner_events else 'only after mark #' + str(inner_events[0][0])} (expected exactly one, right then)")
+        want_mark = 1 if case["outer_fails_first"] else 0
+        if len(outer_events) != 1 or outer_events[0][0] != want_mark:
+            bad("announce-unexpected" if len(outer_events) > 1 else "announce-missing",
+                f"the dependant was generated once, by the {'second' if want_mark else 'first'} lookup; its listener heard {len(outer_events)} event(s) for it "
+                f"(marks: {[h[0] for h in outer_events]})")
+        if out.get("dep_same") is not True:
+            bad("announce-unexpected", "the dependant holds another dependency object than the context returns")
+    c = {"nested_generation_scenarios": 1, "nested_generations_whose_outer_factory_failed_first": int(bool(case["outer_fails_first"]))}
+    return {"violations": V[:3], "sig": ("nested", tuple(sorted(case.items()))), "nontrivial": True, "counters": c, "sample": None}
+
+
 def run_case(case: Any) -> dict[str, Any]:
+    if case.get("kind") == "nested":
+        return run_nested(case)
     return common.run_case(PROPERTY, case)
 
 
